@@ -188,6 +188,30 @@ CHECKS = {
 NOT_YET = "check under construction in this session; not claimed yet (DESIGN.md Appendix D gives the build order)"
 
 
+EXTRA_NOTES = {
+    "C01": "creators that do not name CKA_PRIVATE (the object a session without user login created must be readable there and public); an UNMERGED enumeration of every "
+           "sequence (depth 5 / 6) over a core session/login alphabet with a light oracle (a freshly opened session finds the private object iff the model says the user is logged in).",
+    "C03": "an UNMERGED enumeration of every sequence (depth 5 quick / 6 thorough) over a core alphabet (open rw/ro, close oldest/newest, close-all, user/SO login, logout), so that "
+           "library state the canonical key cannot see (tables, counters, caches left by earlier calls) cannot be merged away.",
+    "C05": "the same histories on the SQLite store (depth 3; database read with Python's sqlite3 incl. the nested-template blobs); object kinds with the lock booleans "
+           "(DESTROYABLE, COPYABLE, MODIFIABLE) away from their defaults and a supplied CKA_PUBLIC_KEY_INFO.",
+    "C06": "objectstore.umask across a re-initialisation of the same process under a rewritten configuration (7 ordered pairs) and in every notation (with / without leading zeros).",
+    "C07": "slots.mechanisms across a re-initialisation of the same process (6 ordered pairs); the advertised list is fetched with exactly the reported count; positive lists with a repeated name.",
+    "C09": "breakages in which byte-string entries are named twice before the rejected entry (an undo log must restore the value from before the call).",
+    "C10": "second lane: the same grid on the Botan-backed build (refusals counted, not judged; 20 known zero-length-decrypt cells).",
+    "C11": "the kinds of retiring events a token has been through (close-all, last close, logout) are part of the state key; copies that are session objects of the copying session.",
+    "C12": "inputs the mechanism must refuse (too long, not the fixed size) in the alphabet; every automaton probe runs in a snapshot of its own (a probe may end a left-over "
+           "operation and hide it from the next); with no operation active a new one of every kind must be startable.",
+    "C14": "SQLite store lane (same alphabet one level shallower); on every transition a token with an open session must refuse re-initialisation (look-ahead, before merging).",
+    "C16": "directory names are part of the content hash of a crash state (an empty token directory is a state of its own).",
+    "C17": "structure-aware mutations of every 8-byte field (type, kind, length, count) of object and token files (fields behind the first boolean value are unaligned); the mechanism "
+           "list is fetched with exactly the reported count; repeated names in slots.mechanisms; a call without answer for 150 s (VERIF_CALL_TIMEOUT) is killed and reported as a hang.",
+    "C19": "the late session's population contains a session object that came into being as a copy.",
+    "C20": "object kinds with the lock booleans away from their defaults / supplied CKA_PUBLIC_KEY_INFO; multi-part and length-query-first cells for every cipher (2 known findings: "
+           "Botan hands multi-part output out in C_*Final only); narrow-counter AES-CTR cells.",
+}
+
+
 def main():
     props = [json.loads(l)["id"] for l in open(os.path.join(VERIF, "properties.jsonl"))]
     checks = []
@@ -195,6 +219,8 @@ def main():
         c = CHECKS.get(pid)
         if not c:
             continue
+        if pid in EXTRA_NOTES:
+            c = dict(c, note=c["note"] + " Added later: " + EXTRA_NOTES[pid])
         checks.append({
             "property_id": pid,
             "quick_cmd": "python3 tools/run_check.py %s --tier quick" % pid,
